@@ -644,7 +644,7 @@ def tr_split_double(tree, D):
            "second test is not `pb_faces.append(i); break`")
     D["sd_problem"] = ("(d : Z) : bool", degtest(s2.test))
     blk = b[4]
-    expect(isinstance(blk, ast.If) and T.dotted(blk.test) == pb and not blk.orelse and len(blk.body) == 3
+    expect(isinstance(blk, ast.If) and T.dotted(blk.test) == pb and not blk.orelse and len(blk.body) == 4
            and isinstance(blk.body[0], ast.With), blk, "expected `if pb_faces: with SurfaceSubdivision(mesh) ...; clear caches`")
     w = blk.body[0]
     it = w.items[0]
@@ -660,6 +660,10 @@ def tr_split_double(tree, D):
     cleared = sorted(T.dotted(call_of(s).func) for s in blk.body[1:] if call_of(s) is not None)
     expect(cleared == sorted([mesh + ".connectivity.clear", mesh + ".clear_boundary_data"]), blk,
            "the caches of the mesh edited in place are not cleared")
+    resets = [st for st in blk.body[1:] if isinstance(st, ast.Assign)]
+    expect(len(resets) == 1 and sorted(T.dotted(t) for t in resets[0].targets) == sorted([mesh + "._is_triangular", mesh + "._is_quad"])
+           and isinstance(resets[0].value, ast.Constant) and resets[0].value.value is None, blk,
+           "the cached face-type answers of the mesh edited in place are not reset")
     expect(isinstance(b[5], ast.Return) and T.dotted(b[5].value) == mesh, b[5], "expected `return mesh`")
 
 
